@@ -47,6 +47,14 @@ CHECKS["C09"] = dict(
     note=_CANON_NOTE + " Tokens that canonicalization splits or merges are outside the author-id clause.",
 )
 
+CHECKS["C10"] = dict(
+    category="model_checking",
+    technique="TLA+ model of the lazily loaded, partly shared rule tables (RuleCache.tla) model-checked by TLC (invariant Fresh); model histories and seeded random histories executed in 16 concurrent sessions; TLC validates that memo: (expression, preferences at set time, preferences now, getter) -> output stays a function (Trace_Memo.tla)",
+    text="Design level: TLC explores all interleavings of preference switches (incl. regional variants that share rule files but not Unicode files) and getters over the five rule sets with their shared tables and checks that a getter never answers from a table that is not the one the preferences name. Implementation level: histories simulated from the model, seeded random histories over every shipped language/style/code/engine (away and back, getters in every order and multiplicity, navigation noise, 16 threads at once) and fresh reference sessions are recorded; TLC rejects any two observations with equal key and different output. Histories and schedules are sampled.",
+    design_ref="DESIGN.md section 5 C10",
+    note="Key completeness: the read-back of every known preference name is the complete assignment. Thread independence rests on the inventory of statics re-derived on every run (a process-wide mutable static is reported as MODEL-DRIFT). Trusted: TLC, the fingerprinting of outputs with ids renamed.",
+)
+
 NOT_YET = {}
 
 
